@@ -42,7 +42,12 @@ def records(wd, tier):
         # repeated variables: the same atom twice, and the same variable with both values (impossible)
         a = singles[gi % len(singles)][0]
         evs = evs + [[a, a], [a, dict(a, s=3 - a["s"])]]
-        items.append({"g": gr, "gid": f"A3-{gi}", "vars": vars_, "evs": evs})
+        # ancestral components (Definition 4.2): W* = the variables of a two-atom event, X* = its second variable
+        cps = [[[p[0], p[1]], [p[1]]] for p in pairs[(gi * 3) % 41:: 41] if (p[0]["n"], p[0]["iv"]) != (p[1]["n"], p[1]["iv"])]
+        cps += [[[p[0], p[1]], [p[0], p[1]]] for p in pairs[(gi * 5) % 211:: 211]]
+        if tier == "quick":
+            cps = cps[::3]   # a sub-family of the thorough one, so that the known-findings table stays valid
+        items.append({"g": gr, "gid": f"A3-{gi}", "vars": vars_, "evs": evs, "comps": cps})
     shards = [items[i::NCPU] for i in range(NCPU)]
     jobs = []
     for i, sh in enumerate(shards):
@@ -58,7 +63,10 @@ def records(wd, tier):
     groups = [x for r in run_parallel(one, jobs) for x in r]
     for gr in groups:  # failure keys name the routine
         for r in gr["recs"]:
-            if "ev" not in r:
+            if r["k"] == "comp":
+                r["ev"] = [dict(v, s=1) for v in r["w"]]
+                r["cond"] = [dict(v, s=1) for v in r["x"]]
+            elif "ev" not in r:
                 r["ev"] = [dict(r["v"], s=1)]
             r["routine"] = r["k"]
     vs, st, by_id = cf.judge(wd, groups, seeds=(1, 2))
@@ -86,5 +94,5 @@ def run(tier: str) -> int:
     cov["states"] += mc["distinct"]
     cov["transitions"] += mc["generated"]
     return out.finish("model_checking", cov, [
-        "get_ancestral_components (Definition 4.2) is not replayed yet",
+        "get_ancestral_components is compared with a transcription of Definition 4.2 (CF.tla AncestralComponents) for W* = the two variables of an event, X* = one or both of them",
         "fixed family (independent of VERIF_SEED); known findings are listed by (routine, input, semantic signature)"])
